@@ -663,6 +663,99 @@ fn check_cnf_path(clauses: &[Clause], rep: &mut Report) {
     }
 }
 
+/// growth schedules: every sequence of at most `depth` calls over {robdd_model_count of one of four
+/// pool diagrams, bdd_new_label, bdd_new_var(true), bdd_new_var(false)} on a fresh 2-variable manager
+/// each. The count of a diagram built before k variables were added is its model count times 2^k,
+/// whatever was counted in between and however many growth calls separate two counts.
+pub fn growth_schedules(depth: usize) -> Report {
+    let mut rep = Report::default();
+    rep.exhaustive = true;
+    // pool over x0, x1: (truth table over 2 variables, how to build it)
+    let pool_tt: [u64; 4] = [0b1010, 0b0101, 0b1110, 0b0110];
+    let nact = 7usize;
+    let mut seq: Vec<usize> = vec![];
+    fn next(seq: &mut Vec<usize>, depth: usize, nact: usize) -> bool {
+        // odometer over all sequences of length 1..=depth, shortest first per prefix order
+        if seq.len() < depth {
+            seq.push(0);
+            return true;
+        }
+        while let Some(last) = seq.pop() {
+            if last + 1 < nact {
+                seq.push(last + 1);
+                return true;
+            }
+        }
+        false
+    }
+    while next(&mut seq, depth, nact) {
+        // only maximal sequences and sequences ending in a count are worth a manager of their own
+        if *seq.last().unwrap() >= 4 && seq.len() < depth {
+            continue;
+        }
+        if !seq.iter().any(|&a| a < 4) || !seq.iter().any(|&a| a >= 4) {
+            continue;
+        }
+        rsdd::verif::set_table_capacity(8);
+        let r = guarded(|| unsafe {
+            let mgr = mk_bdd_manager_default_order(2);
+            let x0 = bdd_var(mgr, 0, true);
+            let x1 = bdd_var(mgr, 1, true);
+            let pool = [x0, bdd_negate(mgr, x0), bdd_or(mgr, x0, x1), bdd_negate(mgr, bdd_iff_c(mgr, x0, x1))];
+            let mut extra = 0u32;
+            let mut bad: Option<String> = None;
+            for (i, &a) in seq.iter().enumerate() {
+                match a {
+                    0..=3 => {
+                        let mc = robdd_model_count(mgr, pool[a]);
+                        let want = (pool_tt[a].count_ones() as u64) << extra;
+                        if mc != want {
+                            bad = Some(format!("step {}: robdd_model_count of pool diagram {} = {}, it has {} models over the {} variables of the manager", i, a, mc, want, 2 + extra));
+                            break;
+                        }
+                    }
+                    4 => {
+                        let _ = bdd_new_label(mgr);
+                        extra += 1;
+                    }
+                    5 => {
+                        let _ = bdd_new_var(mgr, true);
+                        extra += 1;
+                    }
+                    _ => {
+                        let _ = bdd_new_var(mgr, false);
+                        extra += 1;
+                    }
+                }
+            }
+            free_bdd_manager(mgr);
+            bad
+        });
+        rsdd::verif::set_table_capacity(0);
+        rep.traces += 1;
+        rep.transitions += seq.len() as u64;
+        let names = ["count(x0)", "count(!x0)", "count(x0|x1)", "count(x0 xor x1)", "bdd_new_label", "bdd_new_var(true)", "bdd_new_var(false)"];
+        let hist: Vec<&str> = seq.iter().map(|&a| names[a]).collect();
+        match r {
+            Ok(None) => {}
+            Ok(Some(w)) => {
+                rep.violation("ffi:model-count", format!("history {:?}: {}", hist, w), json!({"kind": "ffi_growth", "depth": depth}));
+                break;
+            }
+            Err(p) => {
+                rep.violation("ffi:panic", format!("history {:?} panicked: {}", hist, p), json!({"kind": "ffi_growth", "depth": depth}));
+                break;
+            }
+        }
+    }
+    rep.states = rep.traces;
+    rep
+}
+
+unsafe fn bdd_iff_c(mgr: *mut c_void, a: CB, b: CB) -> CB {
+    bdd_ite(mgr, a, b, bdd_negate(mgr, b))
+}
+
 pub fn run(ctx: &Ctx) -> Report {
     let mut rep = Report::new(
         "call histories through the exported C symbols in lock step with native calls on a second builder: all functions of n variables (n = 2, 3; 4 in thorough with strides) built through bdd_var/bdd_ite/bdd_true/bdd_false, full bdd_eq matrix, all ordered pairs through bdd_and/bdd_or, negate, compose on every variable, ite over a pool, new_label/new_var; after every call the handle is observed through is_true/is_false/is_const/topvar/low/high/count_nodes and (every call of the build phase, a stride elsewhere) to_json/print/model count/real, complex and polynomial counts/scratch accessors; weight tables and polynomial marshalling round trips; every other exported constructor (orders, literals, CNFs, dtree, vtree, SDD and top-down builders) on every CNF with <= 2 clauses; distinct = C call",
@@ -676,6 +769,13 @@ pub fn run(ctx: &Ctx) -> Report {
     rep.add_extra("wide_manager_model_counts", w.transitions);
     rep.bound("wide_managers", json!({"variables": wides, "functions": "constants, literals, 2-literal and/or, negations, 3-literal cubes/clauses/ite at the first/middle/last positions"}));
     rep.merge(w);
+    // growth schedules (counts before, between and after run-time variables)
+    if !crate::core::disabled("growth") {
+        let g = growth_schedules(ctx.tier.pick(5, 6));
+        rep.add_extra("growth_schedule_histories", g.traces);
+        rep.bound("growth_schedules", json!({"initial_variables": 2, "pool": ["x0", "!x0", "x0|x1", "x0 xor x1"], "alphabet": "count of a pool member, bdd_new_label, bdd_new_var(true), bdd_new_var(false)", "max_calls": ctx.tier.pick(5, 6)}));
+        rep.merge(g);
+    }
     // constructors
     let types = clause_types(3);
     let mut sets = multisets(64, 2);
@@ -711,6 +811,7 @@ pub fn replay(ctx: &Ctx, case: &Value) -> Report {
     match case["kind"].as_str() {
         Some("ffi_cnf") => check_cnf_path(&cnf_from_json(&case["cnf"]), &mut rep),
         Some("ffi_wide") => rep.merge(wide_counts(case["n"].as_u64().unwrap_or(20) as usize)),
+        Some("ffi_growth") => rep.merge(growth_schedules(case["depth"].as_u64().unwrap_or(5) as usize)),
         _ => {
             let n = case["n"].as_u64().unwrap_or(3) as usize;
             rep.merge(sweep(n.min(3), ctx));
